@@ -9,6 +9,8 @@ Decided:
   R16.3  scenario loop: prepare -> schedule -> finish with the same index in every iteration; prepare resets
          every task and every resource; each scenario has its own scenario-data objects
   R16.4  writes during scheduling go to scenario-indexed state with that scenario's index
+  R16.5  no class-/module-level container is filled while a project is parsed or scheduled (scenario id -> index tables,
+         caches): such a table answers the next project / scenario from stale entries
 Not decided: equality with single-scenario runs.
 """
 from __future__ import annotations
@@ -175,8 +177,8 @@ def run(ctx: Ctx):
     g = cfg_of(sched)
     calls = {}
     for nd in g.nodes:
-        if nd.kind == "stmt" and nd.ast is not None:
-            for c in ast.walk(nd.ast):
+        if nd.kind in ("stmt", "if", "while") and nd.ast is not None:
+            for c in ast.walk(nd.ast.test if isinstance(nd.ast, (ast.If, ast.While)) else nd.ast):
                 if isinstance(c, ast.Call) and norm(c.func) in ("self.prepareScenario", "self.scheduleScenario", "self.finishScenario"):
                     calls[norm(c.func)] = (nd, c)
     if len(calls) != 3:
@@ -193,6 +195,21 @@ def run(ctx: Ctx):
     ctx.ob("R16.3", f"{sched.qual}: loop over all scenarios, index = sequenceNo - 1", sched, bool(loops) and bool(idx),
            "every declared scenario is scheduled with its own index" if loops and idx else "scenario loop / index derivation changed",
            key="R16.3|Project.schedule|loop")
+    # every scenario gets its turn and is finished: the loop is left only by exhaustion (the `continue` of an inactive
+    # scenario aside) -- a return / break / raise inside it drops the finish of this scenario and all later scenarios
+    for l in loops:
+        exits = [x for st in l.body for x in ast.walk(st) if isinstance(x, (ast.Return, ast.Break, ast.Raise))]
+        ctx.ob("R16.3", f"{sched.qual}: scenario loop is left only by exhaustion", (sched, exits[0] if exits else l), not exits,
+               "no return / break / raise inside the scenario loop" if not exits else
+               f"the scenario loop can be left early ({norm(exits[0])[:40]}): the failing scenario is not finished and every later "
+               "scenario is never prepared or scheduled, so its result depends on the scenarios declared before it",
+               key="R16.3|Project.schedule|loop exits")
+    # after schedule every path of the iteration reaches finish
+    pd = g.postdominators()
+    ok = c_[0].id in pd.get(b[0].id, ())
+    ctx.ob("R16.3", f"{sched.qual}: finishScenario post-dominates scheduleScenario", sched, ok,
+           "a scheduled scenario is always finished" if ok else "a path from scheduleScenario skips finishScenario",
+           key="R16.3|Project.schedule|finish postdom")
     prep = repo.func("Project.prepareScenario")
     targets = {}
     for l in own_nodes(prep):
@@ -238,5 +255,12 @@ def run(ctx: Ctx):
                        f"scheduling writes a scenario-specific attribute with index '{t}'", key=key_of("R16.4", fn, tgt))
     ctx.ob("R16.4", f"{n_w} scenario-specific writes under Project.schedule", sched, n_w >= 10,
            "every write uses the scenario being scheduled", nontrivial=True)
-    ctx.floor("R16.2", 3)
-    ctx.floor("R16.3", 6)
+    # ---------------------------------------------------------------- R16.2 (cont.) per-scenario copies are complete
+    from .c05 import limit_copy_rule
+    limit_copy_rule(ctx, "R16.2")
+    # ---------------------------------------------------------------- R16.5 no per-process table between parse / schedule runs
+    from .c12 import shared_container_census
+    parse_reach = ctx.cg.reach([repo.func("ProjectFileParser.parse"), sched])
+    shared_container_census(ctx, "R16.5", parse_reach)
+    ctx.floor("R16.2", 12)
+    ctx.floor("R16.3", 8)
